@@ -385,6 +385,37 @@ func c19Controller(c *Ctx) {
 	}
 	recognised := map[string]bool{"*TopicError": true, "*TopicPartitionError": true, "KError": true}
 	notCtl, _ := p.ConstNamed("ErrNotController")
+	// does retryOnError itself refresh the controller whenever the operation's error is retriable — before it
+	// returns as well as before it tries again?
+	loopRefreshes, loopHasRefresh := false, false
+	var loopPath []*ssa.BasicBlock
+	if ro := p.Fn("clusterAdmin.retryOnError"); ro != nil && hasItem(ro, p.CallTo("clusterAdmin.refreshController", "Client.RefreshController")) {
+		loopHasRefresh = true
+		rreg := WholeFn(ro)
+		isFnCall := func(it Item) bool {
+			cc, ok := callCommon(it)
+			return ok && !cc.IsInvoke() && ParamN(2)(cc.Value)
+		}
+		retriable := func(v ssa.Value) bool {
+			cl, ok := v.(*ssa.Call)
+			return ok && !cl.Call.IsInvoke() && ParamN(1)(cl.Call.Value)
+		}
+		loopRefreshes = true
+		for _, fc := range rreg.Find(isFnCall) {
+			errV := fc.In.(*ssa.Call)
+			sub := *rreg.From(fc.After())
+			// paths on which the error is nil or not retriable need no refresh
+			sub.Cut = func(from, to *ssa.BasicBlock) bool {
+				return Establishes(from, to, Truth{retriable, false}) || Establishes(from, to, Cmp{token.EQL, Same(errV), IsNil()})
+			}
+			next := func(it Item) bool {
+				return isFnCall(it) || (IsReturn()(it) && !IsRecoverBlock(it.In.Block()))
+			}
+			if it, p2 := sub.MustPrecede(p.CallTo("clusterAdmin.refreshController", "Client.RefreshController"), next); !it.IsZero() {
+				loopRefreshes, loopPath = false, p2
+			}
+		}
+	}
 	for i, op := range ops {
 		host := hosts[i]
 		reqs := p.brokerRequestCalls(op)
@@ -438,13 +469,20 @@ func c19Controller(c *Ctx) {
 			}
 		}
 		if len(starts) == 0 {
+			// the refresh may live in retryOnError itself: then it must happen whenever the error is retriable — also on
+			// the last permitted attempt, or the next operation starts from the stale controller again
+			if loopHasRefresh {
+				c.Check(loopRefreshes, rule, op, "not-controller-refresh-in-retry-loop", nil, "retryOnError refreshes the controller whenever the operation's error is retriable, before returning or trying again",
+					"the controller refresh was moved into retryOnError but is skipped on some path with a retriable error (for instance on the last permitted attempt): with Admin.Retry.Max ≤ 1 the cached controller is never corrected and every later operation goes to the old controller", loopPath)
+				continue
+			}
 			c.Fail(rule, op, "not-controller-handled", nil, "the closure of "+p.Name(host)+" never tests the response for ErrNotController: after a controller move the stale controller is asked again and the error is not recognised as retriable", nil)
 			continue
 		}
 		for _, st := range starts {
 			sub := reg.From(st.pt)
 			it, path := sub.MustPrecede(p.CallTo("clusterAdmin.refreshController", "Client.RefreshController"), IsReturn())
-			if st.done {
+			if st.done || loopRefreshes {
 				it, path = Item{}, nil
 			}
 			okType := true
